@@ -20,11 +20,14 @@ ASSUMPTIONS = [
     "field list of the parse format string 'QS#LIbI' / a sequence of TxOut records",
     "only canonical byte strings are parsed (the property speaks of 'such bytes'); no raw-byte fuzzing here",
 ]
-CONFIGURATIONS = ["BTC Tx class (pycoin.coins.bitcoin.Tx.Tx)", "LTC Tx class (pycoin.coins.litecoin.LTCTx)"]
+CONFIGURATIONS = ["BTC Tx class (pycoin.coins.bitcoin.Tx.Tx)", "LTC Tx class (pycoin.coins.litecoin.LTCTx)", "BCH and BTG Tx classes (same wire format and double-SHA256 ids; Groestlcoin ids are single SHA256 by design and are not asserted here)"]
 UNEXPLORED = ["witness stacks with >= 0xffff items (count boundary is exercised through input/output counts and lengths instead)",
               "LTC MWEB flag (0x08) transactions: not part of the Bitcoin wire format the property names"]
 
-CLASSES = {"BTC": BTC.tx, "LTC": LTC.tx}
+from pycoin.symbols.bch import network as _BCH
+from pycoin.symbols.btg import network as _BTG
+
+CLASSES = {"BTC": BTC.tx, "LTC": LTC.tx, "BCH": _BCH.tx, "BTG": _BTG.tx}
 Spendable = BTC.tx.Spendable
 
 
@@ -120,7 +123,7 @@ def nt_tx(case, labels):
 def s_tx_wire():
     alt = st.one_of(st.none(), st.fixed_dictionaries({"idx": st.integers(0, 300), "stack": txgen.witness_stacks(big=0)}))
     return st.builds(lambda coin, tx, a: {"coin": coin, "tx": tx, "alt_witness": a},
-                     st.sampled_from(["BTC", "BTC", "LTC"]), txgen.txs(big=1), alt)
+                     st.sampled_from(["BTC", "BTC", "LTC", "LTC", "BCH", "BTG"]), txgen.txs(big=1), alt)
 
 
 def cases_tx_grid(tier):
@@ -294,7 +297,7 @@ def s_unspents():
     amt = weighted([(30, st.sampled_from([1, 2, 2**63 - 1, 2**63, 2**64 - 1])), (55, st.integers(1, 2**64 - 1)),
                     (10, st.integers(1, 10**6)), (5, st.just(0))])
     us = st.lists(st.builds(lambda v, s: {"value": v, "script": s}, amt, txgen.blobs(big=0)), min_size=1, max_size=4)
-    return st.builds(lambda coin, tx, u: {"coin": coin, "tx": tx, "unspents": u}, st.sampled_from(["BTC", "LTC"]),
+    return st.builds(lambda coin, tx, u: {"coin": coin, "tx": tx, "unspents": u}, st.sampled_from(["BTC", "BTC", "LTC", "LTC", "BCH", "BTG"]),
                      txgen.txs(big=0, counts=False), us)
 
 
